@@ -2,7 +2,7 @@
    Proved here, for every Zobrist table and every well-formed position (pos_ok: sentinel ring, king
    caches, castling rights only with king and rook at home, en-passant target behind a pawn that has just
    double-stepped, the side not to move not in check): every move the generator produces is a legal move
-   of the rules (Spec.legal_moves: pseudo-legal by the movement rules - pawn pushes, captures, en passant,
+   of the rules and every legal move of the rules is produced (Spec.legal_moves: pseudo-legal by the movement rules - pawn pushes, captures, en passant,
    promotions, knight and king steps, slider rays, castling with right/empty squares/unattacked start,
    transit and destination - and not leaving the mover's king attacked).
    The model is tied to the code by the correspondence with the implementation on every run. *)
@@ -14,6 +14,13 @@ Theorem C01_generated_moves_are_legal : forall zt s x,
   pos_ok s AllMoves -> In x (generate_moves zt s AllMoves) ->
   exists mv, desc x = Some mv /\ In mv (legal_moves (abs s)).
 Proof. exact generated_moves_are_legal. Qed.
+
+(* completeness: no legal move is missing (pos_ok1 adds that the en-passant target lies on the sixth rank
+   of the side to move, which every position reached by a double step satisfies) *)
+Theorem C01_legal_moves_are_generated : forall zt s mv,
+  pos_ok1 s -> In mv (legal_moves (abs s)) ->
+  exists x, In x (generate_moves zt s AllMoves) /\ desc x = Some mv.
+Proof. exact legal_moves_are_generated. Qed.
 
 (* a probed square that passes is_check_cords is not next to the enemy king:
    the king test looks at the probed square, not at the own king's square *)
@@ -35,5 +42,6 @@ Theorem C01_castle_conditions : forall s,
 Proof. exact can_castle_wks_safe. Qed.
 
 Print Assumptions C01_generated_moves_are_legal.
+Print Assumptions C01_legal_moves_are_generated.
 Print Assumptions C01_probe_sees_enemy_king.
 Print Assumptions C01_castle_conditions.
